@@ -218,9 +218,23 @@ def oracle(case, obs):
                            "history-decode")
         return None
     if k == "raw":
-        whole = _feed(case["pb"], [bytes.fromhex(case["data"])] if case["data"] else [])
+        raw = bytes.fromhex(case["data"])
+        whole = _feed(case["pb"], [raw] if raw else [])
         if obs != whole:
             return Failure(case, f"segmentation changes the result: split {obs[:100]} vs whole {whole[:100]}", "split-differs")
+        # the verdict must not depend on the segmentation at all: also cut right after the first element's header
+        # and (small inputs) feed byte by byte
+        hl = 0
+        while hl < len(raw) and raw[hl] < 0x80:
+            hl += 1
+        alts = [chunks([hl + 1], raw)] if hl + 1 < len(raw) else []
+        if len(raw) <= 600:
+            alts.append(chunks([1] * len(raw), raw))
+        for alt in alts:
+            other = _feed(case["pb"], alt)
+            if other != whole:
+                return Failure(case, f"segmentation changes the result: whole {whole[:80]} vs pieces of "
+                                     f"{[len(c) for c in alt][:6]} {other[:80]}", "split-differs-whole")
         err = obs.split("|")[1]
         if err not in ("ok", "BananaError", "NotImplementedError", "KeyError"):
             return Failure(case, f"unexpected exception class {err}", "raw-exception-" + err)
@@ -393,6 +407,12 @@ def corpus():
     for v in (SIZE_LIMIT, SIZE_LIMIT + 1):
         for ty in ("80", "82"):
             cs.append({"kind": "raw", "pb": False, "data": ref_b128(v).hex() + ty, "cuts": [1, 1]})
+    # an oversized string / a string at the limit with the WHOLE body present: delivered in one piece, cut only
+    # inside the 3-digit length prefix, cut right after the header, and byte-wise through the header (seeded C44-D)
+    for v in (SIZE_LIMIT + 1, SIZE_LIMIT):
+        whole = ref_b128(v).hex() + "82" + "61" * v + "0181"
+        for cuts in ([], [1], [2], [3], [4], [1, 1, 1, 1], [70000]):
+            cs.append({"kind": "raw", "pb": False, "data": whole, "cuts": cuts})
     for pb in (False, True):
         cs.append({"kind": "raw", "pb": pb, "data": "0187" + "2087" + "0087", "cuts": [1]})       # VOCAB ids 1, 32, 0
     cs.append({"kind": "rt", "pb": False, "e": {"i": LONG + 1}, "cuts": []})
@@ -521,6 +541,8 @@ def hist(case, obs):
 
 def describe(case):
     c = dict(case)
+    if "data" in c and len(c["data"]) > 400:
+        c["data"] = c["data"][:60] + "...(%d bytes)" % (len(case["data"]) // 2)
     if "e" in c and _size(c["e"]) > 200:
         c["e"] = {"large-expression-of-size": _size(case["e"])}
     if "data" in c and len(c["data"]) > 400:
